@@ -26,7 +26,7 @@ def seeded():
     mp = ROOT / 'seeded' / 'matrix.json'
     mat = json.loads(mp.read_text()) if mp.exists() else {}
     rows = ['| seed | what it changes | first result | strengthening | last matrix run (own check) |', '|---|---|---|---|---|']
-    for d in sorted(p for p in (ROOT / 'seeded').iterdir() if p.is_dir()):
+    for d in sorted(p for p in (ROOT / 'seeded').iterdir() if p.is_dir() and (p / 'meta.json').exists()):
         meta = json.loads((d / 'meta.json').read_text())
         r = res.get(d.name, {})
         m = mat.get(d.name, {})
